@@ -32,11 +32,23 @@ type hctx struct {
 
 func (c *hctx) Done() <-chan struct{} { return c.done }
 func (c *hctx) Err() error {
+	// E4: the watcher's call of Err() is a scheduling point of its own (the goroutine that calls
+	// Dial may run while the watcher is inside the method)
+	if c.w.gateErr && onWatcher() {
+		c.w.park(&call{kind: "ctxerr"})
+	}
 	c.w.mu.Lock()
 	defer c.w.mu.Unlock()
 	return c.err
 }
 func (c *hctx) Deadline() (time.Time, bool) { return c.deadline, c.hasDeadline }
+
+// onWatcher reports whether the calling goroutine is the one setupContextDeadliner started.
+func onWatcher() bool {
+	buf := make([]byte, 1<<14)
+	st := string(buf[:runtime.Stack(buf, false)])
+	return strings.Contains(st, "gobwas/ws.setupContextDeadliner") && !strings.Contains(st, "main.runDial")
+}
 
 // errCause is what Cause() reports for every ended harness context: a value different from
 // Err(), as for a context made by WithCancelCause / WithTimeoutCause. Dial has to report the
@@ -92,6 +104,8 @@ type answer struct {
 }
 
 type world struct {
+	// gateErr: Err() of a harness context parks when the watcher goroutine calls it (E4)
+	gateErr bool
 	// refuseDeadlines: SetDeadline fails and arms nothing
 	refuseDeadlines bool
 	ownTimeoutUsed  bool
@@ -145,6 +159,9 @@ func (w *world) park(c *call) answer {
 	if c.kind == "setdeadline" && c.t.Equal(time.Unix(42, 0)) {
 		c.actor = "watcher"
 	}
+	if c.kind == "ctxerr" {
+		c.actor = "watcher"
+	}
 	w.parked = append(w.parked, c)
 	// two goroutines can arrive at their gates in either order after one action: keep the
 	// parked list and the logs canonical (main before watcher) so that replay is exact
@@ -158,7 +175,7 @@ func (w *world) park(c *call) answer {
 	} else {
 		w.log = append(w.log, entry)
 	}
-	if w.dialDone {
+	if w.dialDone && c.kind != "ctxerr" {
 		w.lateCalls = append(w.lateCalls, entry)
 	}
 	w.mu.Unlock()
@@ -357,7 +374,7 @@ func snapshot() []gstate {
 		if strings.Contains(g, "main.snapshot") {
 			continue
 		}
-		if !strings.Contains(g, "created by main.execute") && !strings.Contains(g, "created by github.com/gobwas/ws") {
+		if !strings.Contains(g, "created by main.execute") && !strings.Contains(g, "created by main.probeDial") && !strings.Contains(g, "created by github.com/gobwas/ws") {
 			continue
 		}
 		i, j := strings.Index(g, "["), strings.Index(g, "]")
@@ -368,7 +385,7 @@ func snapshot() []gstate {
 		if k := strings.Index(st, ","); k >= 0 {
 			st = st[:k]
 		}
-		out = append(out, gstate{state: st, watcher: strings.Contains(g, "created by github.com/gobwas/ws.setupContextDeadliner"), dial: strings.Contains(g, "created by main.execute")})
+		out = append(out, gstate{state: st, watcher: strings.Contains(g, "created by github.com/gobwas/ws.setupContextDeadliner"), dial: strings.Contains(g, "created by main.execute") || strings.Contains(g, "created by main.probeDial")})
 	}
 	return out
 }
